@@ -26,12 +26,12 @@ LEVEL_TEXT = ("held on N generated delivery schedules (1-4 streams, per-stream f
               "late reader) for flat engines, engines of engines and 3-phase engines. Schedule exploration by delays at "
               "existing suspension points; the ready queue is never permuted.")
 LEVEL_NOTE = ("per-stream order preserved; backlog of every stream kept below the receiver capacity (50) by the "
-              "driver; 3-phase engines are driven with per-phase streams that start at the same timestamp (streams of "
-              "one resampler), different per-phase start is reported as an observation")
+              "driver; 3-phase engines are driven with per-phase streams that start at the same or at different "
+              "timestamps")
 RULE = ("seeded schedules: list of (stream, burst, yields) steps over N=15..60 indices; kinds flat / composed / 3phase. "
         "distinct = canonical schedule JSON; non-trivial = >=2 streams and >=10 outputs decoded")
 B = 1000
-REQUIRED_BUCKETS = ["kind:flat", "kind:composed", "kind:3phase", "kind:fallback-term", "different-first-timestamps", "reader-late",
+REQUIRED_BUCKETS = ["3phase-phases-begin-at-different-timestamps", "kind:flat", "kind:composed", "kind:3phase", "kind:fallback-term", "different-first-timestamps", "reader-late",
                     "reader-before-data", "burst>=20", "second-reader", "lagging-stream>=20",
                     "stream-seconds-behind-the-others", "streams-stamped-in-different-time-zones", "sub-second-input-step",
                     "streams-begin-whole-days-apart"]
@@ -71,7 +71,7 @@ def gen(rng: Any, tier: str, i: int) -> Any:
     first = [rng.randint(0, 5) for _ in range(n)]
     if kind == "3phase":
         # all phases are fed by one resampler: same first timestamp per phase group
-        if rng.random() < 0.85:
+        if rng.random() < 0.6:  # (otherwise the phases' own alignment points differ as well)
             f0 = [rng.randint(0, 5) for _ in range(per)]
             m = max(f0)
             first = []
@@ -240,6 +240,8 @@ def check(case: dict[str, Any], rec: Any) -> None:
         per = n // 3
         aligns = [max(first[p * per:(p + 1) * per]) for p in range(3)]
         phase_aligned = len(set(aligns)) == 1
+    if case["kind"] == "3phase" and not phase_aligned:
+        rec.bucket("3phase-phases-begin-at-different-timestamps")
     if not out.get("sent_all"):
         rec.harness_problem("driver could not deliver all samples (engine stalled?)")
     align = max(first)
@@ -270,10 +272,7 @@ def check(case: dict[str, Any], rec: Any) -> None:
                 bad = True
                 break
             if any(d != T for d in dec):
-                if case["kind"] == "3phase" and not phase_aligned:
-                    rec.observe("3phase-with-different-per-phase-start-mixes-timestamps")
-                else:
-                    rec.violation("output-mixes-inputs-of-different-timestamps", w)
+                rec.violation("output-mixes-inputs-of-different-timestamps", {**w, "phases_begin_together": phase_aligned})
                 bad = True
                 break
             ks.append(T)
